@@ -1228,7 +1228,6 @@ func (e *CEnv) call(n *ast.CallExpr) TV {
 }
 
 func (e *CEnv) callFn(f *ssa.Function, recv *TV, argx []ast.Expr) TV {
-	x := e.x
 	var args []Value
 	if recv != nil {
 		args = append(args, recv.V)
@@ -1247,6 +1246,44 @@ func (e *CEnv) callFn(f *ssa.Function, recv *TV, argx []ast.Expr) TV {
 			}
 		}
 		args = append(args, tv.V)
+	}
+	ret := e.callVals(f, args)
+	var rt types.Type
+	switch sig.Results().Len() {
+	case 0:
+		rt = nil
+	case 1:
+		rt = sig.Results().At(0).Type()
+	default:
+		rt = sig.Results()
+	}
+	return TV{ret, rt}
+}
+
+// callVals runs f on argument values. A spec function applied to an ite tree of literals is applied leaf by
+// leaf (the function is pure), which lets table lookups composed with their inverse collapse.
+func (e *CEnv) callVals(f *ssa.Function, args []Value) Value {
+	x := e.x
+	if strings.HasPrefix(f.String(), "verif/spec") && f.Signature.Results().Len() == 1 {
+		for i, a := range args {
+			sc, ok := a.(Scalar)
+			if !ok || !iteLits(sc.T, 40) {
+				continue
+			}
+			if _, isS := leafSort(f.Signature.Results().At(0).Type()); !isS || isString(f.Signature.Results().At(0).Type()) {
+				break
+			}
+			var rec func(t *Term) *Term
+			rec = func(t *Term) *Term {
+				if t.Op == "ite" {
+					return Ite(t.Args[0], rec(t.Args[1]), rec(t.Args[2]))
+				}
+				na := append([]Value(nil), args...)
+				na[i] = Scalar{t}
+				return x.leafTerm(e.callVals(f, na))
+			}
+			return x.leafValue(rec(sc.T), f.Signature.Results().At(0).Type())
+		}
 	}
 	st := e.state()
 	// spec / pure calls must not disturb the state: run on a clone and keep only the result
@@ -1270,16 +1307,7 @@ func (e *CEnv) callFn(f *ssa.Function, recv *TV, argx []ast.Expr) TV {
 			st.Assume = append(st.Assume, a)
 		}
 	}
-	var rt types.Type
-	switch sig.Results().Len() {
-	case 0:
-		rt = nil
-	case 1:
-		rt = sig.Results().At(0).Type()
-	default:
-		rt = sig.Results()
-	}
-	return TV{rets[0].Ret, rt}
+	return rets[0].Ret
 }
 
 // evalLoc evaluates a location expression (for assigns / modifies): returns object and path prefix
